@@ -89,7 +89,8 @@ func (r *Rtmp2RtspRemuxer) FeedRtmpMsg(msg base.RtmpMsg) {
 		}
 		return
 	case base.RtmpTypeIdAudio:
-		if len(msg.Payload) <= 2 {
+		// aac的头是2字节，其他格式（g711，opus）是1字节
+		if len(msg.Payload) <= 1 || (len(msg.Payload) == 2 && msg.AudioCodecId() == base.RtmpSoundFormatAac) {
 			Log.Warnf("rtmp msg too short, ignore. header=%+v, payload=%s", msg.Header, hex.Dump(msg.Payload))
 			return
 		}
